@@ -49,11 +49,11 @@ def ridge_distance(ridge, p):
     return best
 
 
-def area_case(rng, kind):
+def area_case(rng, kind, what=None, tname=None):
     """(world, list of (point, depth, property, expected, nontrivial)) for an area feature with one model under test"""
     w = {"version": "1.1", "features": []}
     gl = G(rng, w)
-    fmin = rng.choice([0, 0, 20e3, 50e3]); fmax = rng.choice([150e3, 200e3, 300e3])
+    fmin = rng.choice([0, 20e3, 50e3]); fmax = rng.choice([150e3, 200e3, 300e3])
     f = {"model": kind, "name": "f", "coordinates": SQ, "min depth": fmin, "max depth": fmax}
     mn = rng.choice([None, 0, 10e3, 30e3, 60e3]); mx = rng.choice([None, 100e3, 180e3, 400e3])
     m = {}
@@ -65,7 +65,7 @@ def area_case(rng, kind):
     ztop, zbot = max(fmin, mnv), min(fmax, mxv)
     names = {"continental plate": ["uniform", "linear", "adiabatic", "chapman"], "oceanic plate": ["uniform", "linear", "adiabatic", "half space model", "plate model", "plate model constant age"],
              "mantle layer": ["uniform", "linear", "adiabatic"]}[kind]
-    what = rng.choice(["T"] * 5 + ["C", "V", "G"])
+    what = what or rng.choice(["T"] * 5 + ["C", "V", "G"])
     exp = []
     depths = [rng.uniform(fmin, fmax) for _ in range(6)] + [ztop + 1.0, zbot - 1.0, 0.5 * (ztop + zbot)]
     if mn is not None and fmin < mn: depths.append(0.5 * (fmin + mn))
@@ -73,7 +73,7 @@ def area_case(rng, kind):
     pts = [([rng.uniform(-400e3, 400e3), rng.uniform(-400e3, 400e3)], d) for d in depths if fmin <= d <= fmax]
     inr = lambda d: mnv <= d <= mxv
     if what == "T":
-        name = rng.choice(names)
+        name = tname or rng.choice(names)
         m["model"] = name
         if name == "uniform":
             T = rng.choice([273.0, 600.0, 1400.5]); m["temperature"] = T
@@ -81,7 +81,7 @@ def area_case(rng, kind):
         elif name == "linear":
             if mx is None:
                 mx = rng.choice([100e3, 180e3, 400e3]); m["max depth"] = mx; mxv = mx; zbot = min(fmax, mxv)
-            top = rng.choice([-1, 273.0, 500.0]); bot = rng.choice([-1, 1300.0, 1600.0])
+            top = rng.choice([-1, -1, 273.0, 500.0]); bot = rng.choice([-1, -1, 1300.0, 1600.0])
             m["top temperature"] = top; m["bottom temperature"] = bot
             tt = gl.adiabat(ztop) if top < 0 else top; tb = gl.adiabat(zbot) if bot < 0 else bot
             fn = lambda p, d: tt + (d - ztop) * (tb - tt) / (zbot - ztop)
@@ -189,7 +189,7 @@ def plume_case(rng):
     return w, exp
 
 
-def line_case(rng, kind):
+def line_case(rng, kind, what=None):
     """vertical slab (top plane y = 0, body 0 <= y <= thickness) or vertical fault (centre plane y = 0)"""
     w = {"version": "1.1", "features": []}
     gl = G(rng, w)
@@ -198,7 +198,7 @@ def line_case(rng, kind):
     f = {"model": kind, "name": "l", "coordinates": [[-800e3, 0], [800e3, 0]], "dip point": [0, 1e7], "segments": [{"length": L, "thickness": [th], "angle": [90]}]}
     dk = "fault center" if fault else "slab top"
     half = th / 2 if fault else th
-    what = rng.choice(["uniform", "linear", "adiabatic", "Cuniform", "Csmooth", "V", "G"])
+    what = what or rng.choice(["uniform", "linear", "adiabatic", "Cuniform", "Csmooth", "V", "G"])
     mn = rng.choice([0, 0, 10e3]); mx = rng.choice([half, 0.5 * half, 2 * half])
     m = {"min distance " + dk: mn, "max distance " + dk: mx}
     pts = []
@@ -264,9 +264,34 @@ def line_case(rng, kind):
     return w, exp
 
 
+def structured_cases(rng, rounds):
+    """every (feature kind x documented model) combination is visited in turn; parameters, sentinels and ranges are drawn at random"""
+    plan = []
+    for kind, names in (("continental plate", ["uniform", "linear", "adiabatic", "chapman"]), ("oceanic plate", ["uniform", "linear", "adiabatic", "half space model", "plate model", "plate model constant age"]),
+                        ("mantle layer", ["uniform", "linear", "adiabatic"])):
+        plan += [(kind, "T", nm) for nm in names] + [(kind, "T", "linear")] + [(kind, x, None) for x in ("C", "V", "G")]
+    plan += [("plume", None, None)] * 2
+    for kind in ("subducting plate", "fault"):
+        plan += [(kind, x, None) for x in ("uniform", "linear", "adiabatic", "Cuniform", "Csmooth", "V", "G")]
+    for wi in range(rounds * len(plan)):
+        kind, what, tname = plan[wi % len(plan)]
+        yield plume_case(rng) if kind == "plume" else (line_case(rng, kind, what) if kind in ("subducting plate", "fault") else area_case(rng, kind, what, tname))
+
+
 def correspondence(seed, tier):
     n = budget(tier, 25, 300)
     rs = [corr.run_corr(seed * 1000 + 50 + k, "C05_%d" % k, n, 25, {"with_random": False, "with_lines": True}) for k in range(budget(tier, 1, 3))]
+    # the structured single-model worlds of the oracle (other seed), model vs library bit for bit
+    rng = random.Random(seed * 7907 + 55)
+    wdir = proto.workdir("C05_struct")
+    lines = []
+    for wi, (w, exp) in enumerate(structured_cases(rng, budget(tier, 2, 20))):
+        path = os.path.join(wdir, "s_%d.wb" % wi)
+        json.dump(w, open(path, "w"))
+        lines.append("world w %s -" % path)
+        lines += [q3("w", [p[0], p[1], 1000e3 - d], d, [pr]) for (p, d, pr, e, nt, nm) in exp]
+        lines.append("free w")
+    rs.append(corr_lines(lines))
     return summarize_corr(rs)
 
 
@@ -274,11 +299,7 @@ def oracle(seed, tier):
     rng = random.Random(seed * 6151 + 5)
     wdir = proto.workdir("C05_oracle")
     viol, cases, nontriv, samples, dist = [], 0, 0, [], {}
-    kinds = ["continental plate", "oceanic plate", "mantle layer", "plume", "subducting plate", "fault"]
-    n = budget(tier, 60, 900)
-    for wi in range(n):
-        kind = kinds[wi % len(kinds)] if wi % 3 else rng.choice(kinds[:3])
-        w, exp = plume_case(rng) if kind == "plume" else (line_case(rng, kind) if kind in ("subducting plate", "fault") else area_case(rng, kind))
+    for wi, (w, exp) in enumerate(structured_cases(rng, budget(tier, 4, 40))):
         path = os.path.join(wdir, "m_%d.wb" % wi)
         json.dump(w, open(path, "w"))
         lines = ["world w %s -" % path] + [q3("w", [p[0], p[1], 1000e3 - d], d, [pr]) for (p, d, pr, e, nt, nm) in exp]
